@@ -640,8 +640,10 @@ def fd_extrapolation(repo, run, tier="quick"):
         lcs = [x for x in ast.walk(st.value) if isinstance(x, ast.ListComp)]
         for lc in lcs:
             gen = lc.generators[0]
-            if isinstance(gen.iter, ast.Call) and dotted(gen.iter.func) == "range" and "len(nodal_points)" in src(gen.iter) and isinstance(lc.elt, ast.Call) and \
-                    fname(lc.elt) in ("pow", "power") and src(lc.elt.args[1]) == src(gen.target) and "nodal_points" in src(lc.elt.args[0]):
+            from ..extract import _subst
+            lenv = inline_locals(g, keep=("nodal_points",))         # locals hoisted out of the comprehension (`n = len(nodal_points)`, a float64 view of the nodes) are the same matrix
+            if isinstance(gen.iter, ast.Call) and dotted(gen.iter.func) == "range" and "len(nodal_points)" in src(_subst(gen.iter, lenv)) and isinstance(lc.elt, ast.Call) and \
+                    fname(lc.elt) in ("pow", "power") and src(lc.elt.args[1]) == src(gen.target) and "nodal_points" in src(_subst(lc.elt.args[0], lenv)):
                 ok_mat = True
     ok_rhs = any(isinstance(st, ast.Assign) and isinstance(st.targets[0], ast.Subscript) and src(st.targets[0]) == "b_vector[%s]" % P[2] and
                  isinstance(st.value, ast.Constant) and st.value.value == 1.0 for st in walk_no_nested(g))
@@ -741,14 +743,18 @@ def fd_extrapolation(repo, run, tier="quick"):
                     npaths += 1
                     if outcome != "return":
                         continue
-                    A = it.env.get("A")
-                    if not isinstance(val, Exp) or not isinstance(A, list):
+                    # the tableau, by role: a local list of rows (lists) one of whose entries IS the returned value (whatever the local is called)
+                    if not isinstance(val, Exp):
                         raise AnalysisError("%s: the returned value is not an entry of the tableau the calculus can follow" % meth)
                     col = None
-                    for row in A:
-                        for j, v in enumerate(row):
-                            if v is val:
-                                col = j
+                    cands = [v_ for v_ in it.env.values() if isinstance(v_, list) and v_ and all(isinstance(r_, list) for r_ in v_)]
+                    if not cands:
+                        raise AnalysisError("%s: the returned value is not an entry of the tableau the calculus can follow" % meth)
+                    for A in cands:
+                        for row in A:
+                            for j, v in enumerate(row):
+                                if v is val:
+                                    col = j
                     if col is None:
                         raise AnalysisError("%s: the returned value is not an entry of the tableau" % meth)
                     o = val.order()
